@@ -19,14 +19,17 @@ class HarnessError(Exception):
 
 
 class EventLog:
-    __slots__ = ('events', 'seq', 'clock')
+    __slots__ = ('events', 'seq', 'clock', 'frozen')
 
     def __init__(self):
+        self.frozen = False
         self.events = []
         self.seq = 0
         self.clock = None  # callable -> sim time
 
     def add(self, actor, kind, *payload):
+        if self.frozen:
+            return 0
         self.seq += 1
         t = self.clock() if self.clock is not None else 0.0
         self.events.append((self.seq, t, actor, kind, payload))
